@@ -7,6 +7,7 @@ import (
 	"github.com/9elements/converged-security-suite/v2/pkg/bootflow/bootengine"
 	"github.com/9elements/converged-security-suite/v2/pkg/bootflow/lib/format"
 	"github.com/9elements/converged-security-suite/v2/pkg/bootflow/types"
+	pkgbytes "github.com/linuxboot/fiano/pkg/bytes"
 )
 
 // ValidatorActorsAreProtected validates if the code of an Actor is protected, before
@@ -21,7 +22,13 @@ func (ValidatorActorsAreProtected) Validate(_ context.Context, _ *types.State, l
 	var measured types.References
 	var prevActor types.Actor
 	for stepIdx, step := range l {
-		prevMeasured := measured
+		// A deep copy: "measured" is appended to and re-sorted in place below,
+		// which must not leak the measurements of this step into "prevMeasured".
+		prevMeasured := make(types.References, len(measured))
+		for idx, ref := range measured {
+			ref.Ranges = append(pkgbytes.Ranges(nil), ref.Ranges...)
+			prevMeasured[idx] = ref
+		}
 		newMeasuredRefs := step.MeasuredData.References()
 		if err := newMeasuredRefs.Resolve(); err != nil {
 			result = append(result, Issue{
